@@ -186,17 +186,13 @@ fn chain_strat(_: &Ctx) -> BoxedStrategy<ChainCase> {
         .boxed()
 }
 
-fn bounds_hit(params: &[f64], changed: usize, oblique: bool, input: &Params) -> bool {
-    // basis order: length, ratio, (angle), x, y, orientation
-    let mut b: Vec<(f64, f64)> = vec![(0.01, input.length), (0.1, input.ratio)];
-    if oblique {
-        b.push((PI / 6., PI / 2.));
+/// does the changed coordinate of a proposal sit exactly on a bound of the field it drives?
+fn bounds_hit(params: &[f64], changed: usize, reader: &statejson::ParamReader, input: &Params) -> bool {
+    let b: [(f64, f64); 6] = [(0.01, input.length), (0.1, input.ratio), (PI / 6., PI / 2.), (-0.5, 0.5), (-0.5, 0.5), (0., 2. * PI)];
+    match reader.field_of.get(changed).copied().flatten() {
+        Some(f) if changed < params.len() => params[changed] == b[f].0 || params[changed] == b[f].1,
+        _ => false,
     }
-    b.extend_from_slice(&[(-0.5, 0.5), (-0.5, 0.5), (0., 2. * PI)]);
-    if params.len() != b.len() || changed >= b.len() {
-        return false;
-    }
-    params[changed] == b[changed].0 || params[changed] == b[changed].1
 }
 
 fn run_chain<S>(mut state: S, c: &ChainCase, rec: &Rec) -> Result<Option<(bool, bool, usize)>, String>
@@ -209,11 +205,14 @@ where
     }
     let (name0, wfam0, cfam0) = labels(&v0);
     let mut input = statejson::read_params(&v0).ok_or("input JSON lacks parameters")?;
-    let oblique = is_oblique(c.group);
     let mut cell_changed = false;
     let mut clamped = false;
     let mut done = 0usize;
     for (k, cfg) in c.stages.iter().enumerate() {
+        let reader = match statejson::ParamReader::new(&state) {
+            Some(r) => r,
+            None => return Ok(Some((cell_changed, clamped, done))),
+        };
         let probe = Probe::new(state.clone(), cfg.kt_start == 0.);
         let model = probe.model.clone();
         {
@@ -239,7 +238,7 @@ where
             rec.eval(m.steps.len() as u64 + 1);
             for st in m.steps.iter() {
                 if let Some(i) = st.changed {
-                    if bounds_hit(&st.proposal, i, oblique, &input) {
+                    if bounds_hit(&st.proposal, i, &reader, &input) {
                         clamped = true;
                     }
                 }
